@@ -44,12 +44,18 @@ def method_calls(node, method):
     return out
 
 
-def fire_calls(node):
-    """[(call, receiver_src, event_ast)] for ``X.fire(E, ...)`` / ``X.fireEvent(E, ...)`` below node."""
+def fire_calls(node, func=None):
+    """[(call, receiver_src, event_ast)] for ``X.fire(E, ...)`` / ``X.fireEvent(E, ...)`` below node.
+    With *func*, an event that was built into a local first (`e = X.child('complete', …); self.fire(e)`) is looked through."""
     out = []
     for c in calls_in(node):
         if isinstance(c.func, ast.Attribute) and c.func.attr in ('fire', 'fireEvent') and c.args:
-            out.append((c, src(c.func.value), c.args[0]))
+            e = c.args[0]
+            if func is not None and isinstance(e, ast.Name):
+                vs = deref(func, e)
+                if len(vs) == 1:
+                    e = vs[0]
+            out.append((c, src(c.func.value), e))
     return out
 
 
@@ -66,9 +72,9 @@ def event_ctor_name(e):
     return None
 
 
-def fires(node, name):
+def fires(node, name, func=None):
     """Calls below node firing an event constructed as name(...) (or child:<name>)."""
-    return [c for (c, _r, e) in fire_calls(node) if event_ctor_name(e) == name]
+    return [c for (c, _r, e) in fire_calls(node, func) if event_ctor_name(e) == name]
 
 
 def cfg_nodes_where(func, pred, kinds=('stmt', 'test', 'iter', 'for', 'with')):
@@ -210,6 +216,26 @@ def flows_from(func, var, depth=4):
         work = nxt
         depth -= 1
     return exprs
+
+
+def deref(func, expr, depth=2):
+    """If *expr* is a local that is only ever bound by plain assignments, the expressions assigned to it (transitively); else [expr].
+    `task = (a, b, c); self.registerTask(task)` is read as `self.registerTask((a, b, c))`."""
+    if not isinstance(expr, ast.Name) or depth <= 0:
+        return [expr]
+    feeds = []
+    for n in walk_no_defs(func.node):
+        if isinstance(n, ast.Assign) and len(n.targets) == 1 and isinstance(n.targets[0], ast.Name) and n.targets[0].id == expr.id:
+            feeds.append(n.value)
+        elif isinstance(n, (ast.AugAssign, ast.For, ast.NamedExpr, ast.With)) and any(isinstance(w, ast.Name) and w.id == expr.id and isinstance(w.ctx, ast.Store) for w in ast.walk(n)):
+            if not isinstance(n, (ast.For, ast.With)) or any(isinstance(w, ast.Name) and w.id == expr.id for w in ast.walk(getattr(n, 'target', None) or n.items[0].optional_vars or ast.Pass())):
+                return [expr]
+    if not feeds or expr.id in func.params:
+        return [expr]
+    out = []
+    for f_ in feeds:
+        out.extend(deref(func, f_, depth - 1))
+    return out
 
 
 # -- regions ------------------------------------------------------------------
